@@ -33,10 +33,45 @@ from typing import Any, Dict, List, Optional, Tuple
 
 from . import model as M
 from . import pools as P
-from .deser_e2e import camel, deep_eq, image_ok, method_classes, short
+from .deser_e2e import camel, deep_eq, image_ok, method_classes
 from .model import Ann, AnyT, Coll, Disc, Enm, Fld, Lit, Mapp, NewT, Obj, Opt, Prim, Ref, Tup, Uni, cons
 
 INT, FLOAT, STR, BOOL, NONE = P.INT, P.FLOAT, P.STR, P.BOOL, P.NONE
+
+
+def short(td) -> str:
+    """compact, unambiguous name of a description (used in signatures)"""
+    if isinstance(td, Prim):
+        return td.name
+    if isinstance(td, AnyT):
+        return "Any"
+    if isinstance(td, Opt):
+        return f"Opt[{short(td.t)}]"
+    if isinstance(td, Uni):
+        return "U[" + ",".join(short(a) for a in td.alts) + "]"
+    if isinstance(td, Coll):
+        return f"{td.kind}[{short(td.t)}]"
+    if isinstance(td, Tup):
+        return "Tup[" + ",".join(short(a) for a in td.elts) + "]"
+    if isinstance(td, Mapp):
+        return f"{td.kind}[{short(td.k)},{short(td.v)}]"
+    if isinstance(td, Lit):
+        return "Lit" + repr(list(td.values))
+    if isinstance(td, (Enm, Ref)):
+        return td.name
+    if isinstance(td, NewT):
+        return f"{td.name}=New[{short(td.t)}" + (";" + _kw(td.cons) if td.cons else "") + "]"
+    if isinstance(td, Ann):
+        return f"Ann[{short(td.t)};{_kw(td.cons)}]"
+    if isinstance(td, Obj):
+        return td.name
+    if isinstance(td, Disc):
+        return "Disc[" + ",".join(a.name for a in td.alts) + ";" + td.alias + (";" + ",".join(f"{k}>{n}" for k, n in td.mapping) if td.mapping else "") + "]"
+    return getattr(td, "name", repr(td))
+
+
+def _kw(c) -> str:
+    return ",".join(f"{k}={v}" for k, v in c.kw)
 
 # ---------------------------------------------------------------------------------------------
 # extensions of the description language (wrapped: see module docstring)
@@ -477,6 +512,10 @@ def _alts_of(td) -> Optional[Tuple[Any, ...]]:
     return None
 
 
+class Ambiguous(Exception):
+    pass
+
+
 def class_matches(td, v, world: World) -> bool:
     """does the class of the value v match the alternative td (statement: 'the first alternative
     whose class matches')"""
@@ -504,6 +543,10 @@ def class_matches(td, v, world: World) -> bool:
         return any(class_matches(a, v, world) for a in td.alts)
     if isinstance(td, Coll):
         base = {"list": list, "sequence": abc.Sequence, "collection": abc.Collection, "mutableseq": abc.MutableSequence, "set": set, "abstractset": abc.Set, "frozenset": frozenset, "tuplevar": tuple}[td.kind]
+        if isinstance(v, str) and td.kind in ("sequence", "collection"):
+            # a str is an instance of the abstract Sequence / Collection classes although it never
+            # conforms to them as data: whether its class "matches" is left open
+            raise Ambiguous()
         return isinstance(v, base) and not isinstance(v, str)
     if isinstance(td, Tup):
         # a fixed-length tuple type: the class is tuple *of that length* (serializing a longer
@@ -726,7 +769,10 @@ def run_unions(report, tier: str, seed: int):
             if k in done:
                 continue
             done.add(k)
-            first = next((a for a in alts if class_matches(a, v, world)), None)
+            try:
+                first = next((a for a in alts if class_matches(a, v, world)), None)
+            except Ambiguous:
+                continue
             if first is None:
                 continue
             for check_type in (False, True):
@@ -847,9 +893,10 @@ def run_discriminated(report, tier: str, seed: int):
                     continue
                 if optname == "coerce":
                     # coercion only widens: what the reference accepts stays accepted with the same value
-                    if exp[0] == "ok" and (got[0] != "ok" or not image_ok(td, got[1], exp[1], RefX(world, mopts), d)):
-                        why = ":" + "|".join(sorted({m for _, m in got[1]}))[:120] if got[0] == "err" else ""
-                        fail("disc-coerce-mismatch", f"data accepted through the discriminator without coercion is rejected / mapped differently with coercion: {got!r}"[:300], why)
+                    if exp[0] == "ok" and got[0] != "ok":
+                        fail("disc-coerce-rejected", f"data accepted through the discriminator without coercion is rejected with coercion: {got!r}"[:300])
+                    elif exp[0] == "ok" and not image_ok(td, got[1], exp[1], RefX(world, mopts), d):
+                        fail("disc-coerce-image", f"data accepted through the discriminator is mapped differently with coercion: {got[1]!r} instead of {exp[1]!r}"[:300])
                     continue
                 if got[0] != exp[0]:
                     fail("disc-accept-mismatch", f"{'accepted' if got[0] == 'ok' else 'rejected'} but the alternative selected by the discriminator value {'accepts' if exp[0] == 'ok' else 'rejects'} it")
@@ -884,7 +931,7 @@ def run_discriminated(report, tier: str, seed: int):
                     log.fail(f"disc-ser-crash:{sig}", f"serialize({short(td)}, {v!r}, {optname}) -> {gotv!r}", {"type": short(td), "options": optname, "value": repr(v)}, observed=repr(gotv)[:500], expected=repr(base)[:500], functions_involved=ser_classes(tp, **skw))
                     continue
                 raw = disc_alias(td)
-                if raw != alias and alias not in gotv[1] and raw in gotv[1] and raw not in base[1]:
+                if raw != alias and raw in gotv[1] and raw not in base[1]:
                     log.fail(f"disc-ser-unaliased-key:{sig}", f"serialize({short(td)}, {v!r}, {optname}) -> {gotv[1]!r}: the discriminator property is written as {raw!r}, but under the aliaser deserialization reads it as {alias!r} (no round trip)", {"type": short(td), "options": optname, "value": repr(v)}, observed=repr(gotv)[:500], expected=f"{{..., {alias!r}: one of {keys}}}", functions_involved=ser_classes(tp, **skw))
                     continue
                 rest = {k: x for k, x in gotv[1].items() if k != alias}
